@@ -358,7 +358,7 @@ class World:
         self._saved = {
             'cwd': os.getcwd(),
             'env': {k: os.environ.get(k) for k in
-                    ('HOME', 'PICO8_LUA_PATH')},
+                    ('HOME', 'PICO8_LUA_PATH', 'TMPDIR')},
             'reclimit': sys.getrecursionlimit(),
             'streams': (util._write_stream, util._error_stream),
             'stdout': sys.stdout, 'stderr': sys.stderr,
@@ -370,12 +370,20 @@ class World:
         util.set_verbosity(util.VERBOSITY_NORMAL)
         sys.stdout = self.out
         sys.stderr = self.err
-        for k in ('HOME', 'PICO8_LUA_PATH'):
+        for k in ('HOME', 'PICO8_LUA_PATH', 'TMPDIR'):
             v = self.env.get(k)
             if v is None:
-                os.environ.pop(k, None)
+                if k != 'TMPDIR':
+                    os.environ.pop(k, None)
             else:
                 os.environ[k] = self.subst(v)
+        # temporary files live inside the world too: no run ever touches
+        # the machine-wide /tmp, where concurrent runs could meet
+        import tempfile
+        if not self.env.get('TMPDIR'):
+            os.environ['TMPDIR'] = self.p('tmp')
+        os.makedirs(os.environ['TMPDIR'], exist_ok=True)
+        tempfile.tempdir = None          # forget the cached directory
         if 'HOME' not in self.env:
             os.environ['HOME'] = self.p('home')
         os.chdir(self.p(self.cwd) if self.cwd else self.root)
@@ -403,6 +411,8 @@ class World:
         util.set_verbosity(util.VERBOSITY_NORMAL)
         sys.setrecursionlimit(s['reclimit'])
         os.chdir(s['cwd'])
+        import tempfile
+        tempfile.tempdir = None
         for k, v in s['env'].items():
             if v is None:
                 os.environ.pop(k, None)
